@@ -119,8 +119,52 @@ let errpp_line (line : string) : string =
       Buffer.add_string b (Printf.sprintf " | PQ %d %d %s" s e (at "Parsing error at line %d column %d. No repair sequences found."))) r.cr_spans;
     Buffer.contents b
 
+(* X <code points> ; s1 e1 s2 e2 ... : for each listed span, what underline_span_with_text(span, "", '^')
+   prints (rows, then a blank and the empty message) and the "line:col" file_location_msg prints for its
+   start (the spans format_conflicts takes from the grammar: rule_name_span, token_span, prod_span) *)
+let spans_line (line : string) : string =
+  let (a, t) = split2 line in
+  let text = match split_ws a with _ :: cps -> List.map (fun x -> n_of_int (int_of_string x)) cps | [] -> [] in
+  match diag_spans_case text (pairs_of (ints_of t)) with
+  | Panic | OutOfFuel -> "FEEDPANIC"
+  | Done rs ->
+    let b = Buffer.create 256 in
+    Buffer.add_string b "X";
+    List.iter (fun (((s, e), rows), fl) ->
+      Buffer.add_string b (match rows with
+        | Done rows -> Printf.sprintf " | U %d %d x%s" (int_of_nat s) (int_of_nat e) (hex_of (render_rows 0 rows ""))
+        | _ -> Printf.sprintf " | U %d %d P" (int_of_nat s) (int_of_nat e));
+      Buffer.add_string b (match fl with
+        | Done (l, c) -> Printf.sprintf " | F %d %d:%d" (int_of_nat s) (int_of_nat l) (int_of_nat c)
+        | _ -> Printf.sprintf " | F %d P" (int_of_nat s))) rs;
+    Buffer.contents b
+
+(* P<checked> <code points> ; <fed code points> ; s1 e1 ... : per span "s e l c l1 c1 l2 c2" = the (line, col)
+   LexParseError::pp prints and the two pairs NonStreamingLexer::line_col returns, for a lexer built by
+   LRNonStreamingLexer::new(text, _, cache of the fed text); "s e P" = panic *)
+let lexer_line (line : string) : string =
+  let checked = String.length line > 1 && line.[1] = '1' in
+  let (a, r) = split2 line in
+  let (f, t) = split2 r in
+  let text = match split_ws a with _ :: cps -> List.map (fun x -> n_of_int (int_of_string x)) cps | [] -> [] in
+  let fed = List.map n_of_int (ints_of f) in
+  match lexer_case checked fed text (pairs_of (ints_of t)) with
+  | Panic | OutOfFuel -> "FEEDPANIC"
+  | Done rs ->
+    let b = Buffer.create 256 in
+    Buffer.add_string b "P";
+    List.iter (fun (((s, e), o), o2) ->
+      Buffer.add_string b (match o, o2 with
+        | Done (l, c), Done ((l1, c1), (l2, c2)) ->
+          Printf.sprintf " | %d %d %d %d %d %d %d %d" (int_of_nat s) (int_of_nat e) (int_of_nat l) (int_of_nat c)
+            (int_of_nat l1) (int_of_nat c1) (int_of_nat l2) (int_of_nat c2)
+        | _ -> Printf.sprintf " | %d %d P" (int_of_nat s) (int_of_nat e))) rs;
+    Buffer.contents b
+
 let () =
   iter_lines (fun line ->
+    if String.length line > 0 && line.[0] = 'X' then spans_line line else
+    if String.length line > 0 && line.[0] = 'P' then lexer_line line else
     if String.length line > 0 && line.[0] = 'E' then errpp_line line else
     if String.length line > 0 && line.[0] = 'O' then on_line_line line else
     if String.length line > 0 && line.[0] = 'D' then diag_line line else
